@@ -581,6 +581,9 @@ class GraphWorld:
         self.effect(("snap_range", repr(rng.lo), repr(rng.hi), outcomes[True], outcomes[False]), st)
         self.snap_effects.append((rng, "range", (outcomes[True], outcomes[False]), st.lineno))
 
+    def on_handler(self, ip, r, handler):
+        pass
+
     def resolve_name(self, ip, name, node):
         return None
 
